@@ -355,6 +355,27 @@ def stray_end(names: tuple[str, ...], facts: EnvFacts) -> bool:
     return False
 
 
+def extraneous_branch(names: tuple[str, ...], facts: EnvFacts) -> bool:
+    """True iff (by a plain nesting scan) some if/unless block has an ``else`` that is followed
+    by another ``else``/``elsif`` before its end tag.  The parser silently discards such
+    extraneous branches token by token, so the source then contains text that is never
+    parsed; the statement and the docs say nothing about reports located there."""
+    stack: list[list[Any]] = []
+    for n in names:
+        if n in facts.blocks:
+            stack.append([n, False])
+        elif n.startswith("end") and len(n) > 3:
+            if any(fr[0] == n[3:] for fr in stack):
+                while stack and stack.pop()[0] != n[3:]:
+                    pass
+        elif n in ("else", "elsif") and stack and stack[-1][0] in ("if", "unless"):
+            if stack[-1][1]:
+                return True
+            if n == "else":
+                stack[-1][1] = True
+    return False
+
+
 def contexts(tokens: list[tuple[str, int]], facts: EnvFacts) -> dict[int, dict[str, Any]]:
     """Signature features only: for every scanned tag, keyed by the offset of its name, the
     innermost open registered block and the enclosing loop blocks (own simple stack)."""
